@@ -16,7 +16,10 @@ Oracle : invariants over the history, checked after every single mj_step and aft
             during state advancement (mj_step2 / end of mj_step), never in mj_step1 or mj_forward;
          I4 after a user write that changes a sleeping tree's qpos, or sets its qvel / qfrc_applied / xfrc_applied to a
             value whose bytes are non-zero (including -0.0), the next mj_forward reports the WHOLE cycle awake;
-         I5 after mj_forward no contact joins a sleeping tree with an awake tree or a mocap body;
+         I5 after mj_forward no contact joins a sleeping tree with an awake tree or a mocap body, and (independent
+            sphere-sphere / sphere-box distance, right after any collision stage) no collidable geom of an awake tree or
+            mocap body penetrates a geom of a sleeping tree; collidable = explicit <contact><pair> or bitmask match -
+            a third of the free bodies are "ghosts" (contype=conaffinity=0) that collide only through explicit pairs;
          I6 after mj_forward no active connect/weld/joint equality joins a sleeping tree with an awake tree, a mocap
             body, or a sleeping tree of another cycle;
          I7 a cycle wakes as a whole, and only in the position/velocity stages (half of the histories step with
@@ -52,6 +55,11 @@ def unit(draw, i):
   gt = draw(st.sampled_from(['box', 'sphere', 'capsule', 'cylinder', 'ellipsoid']))
   if kind in ('stack', 'slider'):
     gt = 'box'
+  # "ghost" bodies: contype = conaffinity = 0, they collide ONLY through explicit <contact><pair> entries (with the
+  # floor, with every other root geom and with the mocap geoms)
+  u['ghost'] = kind in ('free', 'float_init') and draw(st.integers(0, 2)) == 0
+  if u['ghost']:
+    gt = draw(st.sampled_from(['sphere', 'sphere', 'box']))
   u['geom'] = gt
   if gt == 'box':
     u['size'] = [draw(num(0.08, 0.2)), draw(num(0.08, 0.2)), draw(num(0.05, 0.15))]
@@ -136,18 +144,22 @@ def render(sc, sleep=True):
   xml = ('<mujoco><option timestep="%s" integrator="%s" solver="%s" cone="%s" sleep_tolerance="%s"><flag %s/></option>'
          '<worldbody><geom name="floor" type="plane" size="10 10 .1"/>' % (
              fmt(o['timestep']), o['integrator'], o['solver'], o['cone'], fmt(o['tol']), flags))
+  named = []     # units whose root geom is named g<i> (pair targets)
   for i, u in enumerate(sc['units']):
     x = 0.8 * i
     pol = ' sleep="%s"' % u['policy'] if u['policy'] else ''
+    gx = ' name="g%d"' % i + (' contype="0" conaffinity="0"' if u.get('ghost') else '')
     if u['kind'] in ('free', 'stack'):
       xml += '<body name="t%d" pos="%s 0 %s"%s><freejoint/>%s</body>' % (i, fmt(x), fmt(u['hz']), pol,
-                                                                       geom_xml(u['geom'], u['size']))
+                                                                       geom_xml(u['geom'], u['size'], gx))
+      named.append(i)
       if u['kind'] == 'stack':
         xml += '<body name="t%du" pos="%s 0 %s"><freejoint/>%s</body>' % (
             i, fmt(x), fmt(2 * u['hz'] + u['size2'][2]), geom_xml('box', u['size2']))
     elif u['kind'] == 'slider':
       xml += ('<body name="t%d" pos="%s 0 %s"%s><joint name="js%d" type="slide" axis="0 0 1" damping="1"/>%s</body>' % (
-          i, fmt(x), fmt(u['hz']), pol, i, geom_xml('box', u['size'])))
+          i, fmt(x), fmt(u['hz']), pol, i, geom_xml('box', u['size'], gx)))
+      named.append(i)
     elif u['kind'] == 'arm':
       xml += ('<body name="t%d" pos="%s 0 1.0"%s><joint type="hinge" axis="0 1 0" damping="0.2"/>'
               '<geom type="capsule" fromto="0 0 0 0 0 -0.2" size="0.03"/><body pos="0 0 -0.2">'
@@ -155,10 +167,23 @@ def render(sc, sleep=True):
               '</body></body>' % (i, fmt(x), pol))
     else:   # float_init: asleep in mid-air from the start
       xml += '<body name="t%d" pos="%s 0.8 1.6"%s><freejoint/>%s</body>' % (i, fmt(x), pol,
-                                                                           geom_xml(u['geom'], u['size']))
+                                                                           geom_xml(u['geom'], u['size'], gx))
+      named.append(i)
   for k in range(sc['nmocap']):
-    xml += '<body name="mc%d" mocap="true" pos="%s -3 3"><geom type="sphere" size="0.1"/></body>' % (k, fmt(-1.0 - k))
+    xml += ('<body name="mc%d" mocap="true" pos="%s -3 3"><geom name="gm%d" type="sphere" size="0.1"/></body>' % (
+        k, fmt(-1.0 - k), k))
   xml += '</worldbody>'
+  pairs = []
+  ghosts = [i for i in named if sc['units'][i].get('ghost')]
+  for i in ghosts:
+    pairs.append(('floor', 'g%d' % i))
+    for j in named:
+      if j != i and not (j in ghosts and j < i):
+        pairs.append(('g%d' % i, 'g%d' % j))
+    for k in range(sc['nmocap']):
+      pairs.append(('gm%d' % k, 'g%d' % i))
+  if pairs:
+    xml += '<contact>%s</contact>' % ''.join('<pair geom1="%s" geom2="%s"/>' % pq for pq in pairs)
   if sc['eqs']:
     xml += '<equality>'
     for k, e in enumerate(sc['eqs']):
@@ -257,6 +282,43 @@ class Info:
     self.body_root = np.array(m.body_rootid, dtype=int)
     self.minawake = int(E.mjMINAWAKE)
     self.E = E
+    self.geom_type = np.array(m.geom_type, dtype=int)
+    self.geom_size = np.array(m.geom_size, dtype=float)
+    self.geom_mask = (np.array(m.geom_contype, dtype=int), np.array(m.geom_conaffinity, dtype=int))
+    self.pairs = {frozenset((int(a), int(b))) for a, b in zip(m.pair_geom1, m.pair_geom2)}
+    self.tree_geoms = [[g for g in range(int(m.ngeom)) if self.body_tree[self.geom_body[g]] == t]
+                       for t in range(self.ntree)]
+    self.mocap_geoms = [g for g in range(int(m.ngeom)) if self.body_tree[self.geom_body[g]] < 0 and
+                        self.body_mocap[self.body_root[self.geom_body[g]]] >= 0]
+
+  def collidable(self, g1, g2):
+    """documented pair selection: an explicit <pair>, or compatible contype/conaffinity bitmasks"""
+    if frozenset((g1, g2)) in self.pairs:
+      return True
+    ct, ca = self.geom_mask
+    return bool((ct[g1] & ca[g2]) or (ct[g2] & ca[g1]))
+
+  def distance(self, d, g1, g2):
+    """independent signed distance for sphere-sphere and sphere-box (None for other type combinations)"""
+    E = self.E
+    t1, t2 = self.geom_type[g1], self.geom_type[g2]
+    if t1 == E.mjGEOM_BOX and t2 == E.mjGEOM_SPHERE:
+      g1, g2, t1, t2 = g2, g1, t2, t1
+    if t1 != E.mjGEOM_SPHERE:
+      return None
+    c = np.array(d.geom_xpos[g1])
+    r = self.geom_size[g1][0]
+    if t2 == E.mjGEOM_SPHERE:
+      return float(np.linalg.norm(c - np.array(d.geom_xpos[g2])) - r - self.geom_size[g2][0])
+    if t2 == E.mjGEOM_BOX:
+      R = np.array(d.geom_xmat[g2]).reshape(3, 3)
+      loc = R.T @ (c - np.array(d.geom_xpos[g2]))
+      h = self.geom_size[g2]
+      q = np.abs(loc) - h
+      if np.all(q <= 0):
+        return float(np.max(q) - r)                      # centre inside the box
+      return float(np.linalg.norm(np.maximum(q, 0)) - r)
+    return None
 
 
 def main(ck):
@@ -400,6 +462,25 @@ def main(ck):
         if i in cyc:
           raise Violation('%s: tree %d (cycle %s before the write) is still asleep after mj_forward; tree_asleep=%s' % (
               what, i, prev.get(i) if prev else None, ta.tolist()), bucket='I4-user-wake')
+      if (full or phase == 'wake') and cyc and prev is not None:
+        # I5b (geometric, independent of the engine's contact list): right after the collision stage no collidable geom
+        # of an awake tree / mocap body may clearly penetrate a geom of a sleeping tree - touching wakes the cycle.
+        # Collidable = explicit <contact><pair> or compatible contype/conaffinity. Own sphere-sphere / sphere-box distance.
+        awake_geoms = [g for t in range(nt) if t not in cyc for g in info.tree_geoms[t]] + info.mocap_geoms
+        for t in cyc:
+          for g1 in info.tree_geoms[t]:
+            for g2 in awake_geoms:
+              if not info.collidable(g1, g2):
+                continue
+              dist = info.distance(d, g1, g2)
+              if dist is None:
+                continue
+              labels.add('I5b:checked' + (':explicit-pair' if frozenset((g1, g2)) in info.pairs else ''))
+              if dist < -1e-3:
+                raise Violation('%s: geom %d of an awake tree / mocap body penetrates geom %d of sleeping tree %d by %.4g '
+                                '(%s) but the tree was not woken; tree_asleep=%s ncon=%d' % (
+                                    what, g2, g1, t, -dist, 'explicit <pair>' if frozenset((g1, g2)) in info.pairs else
+                                    'contype/conaffinity', ta.tolist(), int(d.ncon)), bucket='I5-penetration')
       if full:
         # I5
         con = d.contact
@@ -554,8 +635,12 @@ def main(ck):
           dd.qpos[adr[:3]] = top
           dd.qpos[adr[3:]] = [1, 0, 0, 0]
           dd.qvel[info.tree_dof[ta_]] = 0.0
+        oldq = np.array(d.qpos[adr])
         both(fn)
-        if ta_ in prev:
+        # the write counts as a change only if it really moves the body (a sleeping body dropped twice onto the same
+        # sleeping target is written with identical values)
+        moved = np.max(np.abs(oldq[:3] - top)) > 1e-6 or np.max(np.abs(oldq[3:] - np.array([1.0, 0, 0, 0]))) > 1e-6
+        if ta_ in prev and moved:
           expect = set(prev[ta_])
           reason = 'user-qpos'
         labels.add('drop')
@@ -597,7 +682,7 @@ def main(ck):
                                                           wake_events=st_['nwake'], steps=nsteps),
             labels=sorted(st_['labels']) + (['nt:sleep-then-wake'] if nt else []))
 
-  ck.run_hypothesis(test, st.tuples(scene(), ops_strategy(ck.budget(40, 60)), st.booleans()), ck.budget(500, 12000),
+  ck.run_hypothesis(test, st.tuples(scene(), ops_strategy(ck.budget(40, 60)), st.booleans()), ck.budget(500, 8000),
                     name='sleep-history')
 
 
